@@ -1,5 +1,6 @@
 import CpModel.Opp.Ldap
 import CpSpec.Wire
+import CpSpec.Opp
 /-
   C09 (LDAP framing) — `_get_message_size` returns exactly the number of octets of the outer BER
   TLV, for EVERY length form X.690 §8.1.3 allows: the short form, and the long form with any number
@@ -62,6 +63,16 @@ theorem size_is_tlv_length_long (tag : UInt8) (ls content tail : Bytes) (hk : ls
   simp only [List.length_cons, List.length_append]
   congr 1
   omega
+
+/-- the two RFC 4511 encodings of `CpSpec/Opp.lean` (what the library composes) are consumed completely,
+whatever follows them and whatever the result code -/
+theorem size_of_spec_request (tail : Bytes) :
+    ldapMessageSize (Spec.Opp.ldapStartTlsRequest ++ tail) = .ok Spec.Opp.ldapStartTlsRequest.length := by
+  rfl
+
+theorem size_of_spec_response (rc : Nat) (tail : Bytes) :
+    ldapMessageSize (Spec.Opp.ldapStartTlsResponse rc ++ tail) = .ok (Spec.Opp.ldapStartTlsResponse rc).length := by
+  rfl
 
 /-! non-vacuity: the Active Directory form `30 84 00 00 00 03` and the minimal `30 81 80` -/
 example : ldapMessageSize [0x30, 0x84, 0, 0, 0, 3, 1, 2, 3, 0x16, 0x03] = .ok 9 := by decide
